@@ -1,6 +1,6 @@
 """C03 - update changes exactly the matching points, with documented merge semantics (DESIGN 4, C03)."""
 
-from .. import observers, qast, world as W
+from .. import ladder, observers, qast, world as W
 from .base import E1Check, viol
 from .c01 import std_ops
 
@@ -95,7 +95,9 @@ class C03(E1Check):
         if self.tier == "quick":
             for c in cfgs:  # quick: file-backed configurations one level shallower
                 c["D"] = 4 if c["name"] == "mem/auto" else 3
-        return cfgs
+        lad = ladder.configs(self.ladder_sizes(), storages=("mem", "csv"), autos=(True,), D=2, big_depth=1 if self.tier == "quick" else None)
+        lad += ladder.configs(self.ladder_sizes()[:1], storages=("csv",), autos=(False,), D=2)
+        return cfgs + lad
 
     def budget(self):
         return 600 if self.tier == "quick" else 1200
@@ -125,8 +127,18 @@ class C03(E1Check):
         self._probe_set -= set(base)
         return base + [p for p in self._probes if p in self._probe_set]
 
+    def ladder_op_list(self, cfg):
+        n = cfg["ladder"]
+        base = ladder.ops(self.alpha, cfg)
+        forms = [sp for name, sp in self.specs if name in ("time-fn", "meas-static", "tags-static", "fields-fn", "unset-tag", "tags+fields-fn", "fields-static-w9")]
+        extra = [("update", q, sp, m, "db") for q in self.ladder_vocab(n)[:12] for sp in forms for m in (None, "big")]
+        extra += [("update_all", sp, "h:big") for sp in forms]
+        have = set(base)
+        self._ladder_probes = {e for e in extra if e not in have}
+        return base + [e for e in extra if e not in have]
+
     def is_probe(self, op):
-        return op in self._probe_set
+        return op in self._probe_set or op in getattr(self, "_ladder_probes", ())
 
     def coverage_extra(self, res):
         return {"update_probes_per_state": len(self.probes()), "update_forms": [n for n, _ in self.specs]}
